@@ -5,5 +5,6 @@
 pub mod envmod;
 pub mod fsnap;
 pub mod layers;
+pub mod layers_gen;
 pub mod tomlgen;
 pub mod util;
